@@ -19,6 +19,12 @@ ALL = [json.loads(l)["id"] for l in open(os.path.join(HERE, "properties.jsonl"))
 NA_REASON = {}
 exec(open(os.path.join(HERE, "tools", "na.py")).read())
 
+# rules added after later seeded rounds (appended to each check's level_note)
+EXTRA_NOTES = {}
+_ep = os.path.join(HERE, "tools", "extra_notes.py")
+if os.path.exists(_ep):
+    exec(open(_ep).read())
+
 checks = []
 for pid in ALL:
     if pid not in CLAIMED:
@@ -32,7 +38,7 @@ for pid in ALL:
         "replay_cmd_template": "./run.sh --replay {path}",
         "engine": "scrapcheck",
         "level_claimed": {"category": "other", "text": text, "design_ref": ref},
-        "level_note": note,
+        "level_note": note + ((" " + EXTRA_NOTES[pid]) if pid in EXTRA_NOTES else ""),
         "technique": technique,
     })
 
